@@ -64,17 +64,29 @@ fn main() {
                     let t0 = std::time::Instant::now();
                     let mut steps = 0;
                     let mut viol = 0;
+                    let mut by_key: std::collections::BTreeMap<String, (u64, String)> = Default::default();
                     for idx in 0..n {
                         let seed = supervisor::run_seed(base_seed, pi, idx);
                         let plan = p.gen(seed, Tier::Quick);
-                        let rep = p.run(&plan, false);
+                        let rep = match std::panic::catch_unwind(std::panic::AssertUnwindSafe(|| p.run(&plan, false))) {
+                            Ok(r) => r,
+                            Err(_) => {
+                                hsim::interpose::deactivate();
+                                hsim::exec::abandon();
+                                let e = by_key.entry("PANIC".into()).or_insert((0, format!("idx {idx}")));
+                                e.0 += 1;
+                                continue;
+                            }
+                        };
                         steps += rep.steps;
                         if let Some(v) = rep.violation {
                             viol += 1;
-                            if viol <= 3 {
-                                println!("idx {idx}: {} {} {}", v.invariant, v.shape, v.detail);
-                            }
+                            let e = by_key.entry(format!("{}/{}", v.invariant, v.shape)).or_insert((0, format!("idx {idx}: {}", v.detail)));
+                            e.0 += 1;
                         }
+                    }
+                    for (k, (c, d)) in &by_key {
+                        println!("{c:>6}  {k}\n        e.g. {d}");
                     }
                     println!("{n} runs, {steps} steps, {viol} violations, {:.3} ms/run", t0.elapsed().as_secs_f64() * 1000.0 / n as f64);
                 }
